@@ -299,8 +299,9 @@ def finishWith (order : List FinishCall) (a b c : Nat) : List Act :=
 
 `handleNodeLeftEvent` takes the snapshot path when the store holds a snapshot of the departed node,
 otherwise the crash-recovery path (`gateCrashRecovery` → `deriveRelocationSetFromRegistry` →
-`publishRelocationStarted` → `dispatchDerivedRebalance`).  On the crash path the RelocationStarted
-event is published BEFORE the in-flight check (code as it is).  A relocation is dispatched (the
+`publishRelocationStarted` → `dispatchDerivedRebalance`).  Since fix 51adf01 the crash path returns
+before announcing anything when a job is registered; without a job it announces the derived set even
+when that set is empty (intentional: "published even when the set is empty").  A relocation is dispatched (the
 relocator spawns a worker, which runs once) iff there is something to relocate and no job is
 registered.  A run that completes leaves nothing of the departed node behind; an aborted run deletes
 the snapshot and releases the job but leaves the registry records, so the departure can be
@@ -313,6 +314,7 @@ structure Life where
   runs : Nat          -- relocations started (worker runs)
   announced : Nat     -- RelocationStarted events
   aborts : Nat        -- runs that aborted
+  empty : Nat         -- ghost: crash-path announcements of an empty derived set (nothing to relocate)
 deriving DecidableEq, Repr
 
 inductive LifeAct where
@@ -325,15 +327,15 @@ def lifeStep (d : Life) : LifeAct → Life
   | .nodeLeft =>
     if d.snapshot then
       if d.job then d else { d with job := true, runs := d.runs + 1, announced := d.announced + 1 }
-    else
-      let d1 := { d with announced := d.announced + 1 }
-      if d.records && !d.job then { d1 with job := true, runs := d.runs + 1 } else d1
+    else if d.job then d   -- fix 51adf01: a relocation is in flight, announce and dispatch nothing
+    else if d.records then { d with job := true, runs := d.runs + 1, announced := d.announced + 1 }
+    else { d with announced := d.announced + 1, empty := d.empty + 1 }
   | .runOK => if d.job then { d with snapshot := false, records := false, job := false } else d
   | .runAbort => if d.job then { d with snapshot := false, job := false, aborts := d.aborts + 1 } else d
 
 def lifeRun (d : Life) (l : List LifeAct) : Life := l.foldl lifeStep d
 
 def Life.init (snapshot : Bool) : Life :=
-  { snapshot := snapshot, records := true, job := false, runs := 0, announced := 0, aborts := 0 }
+  { snapshot := snapshot, records := true, job := false, runs := 0, announced := 0, aborts := 0, empty := 0 }
 
 end GoaktVerif.Model.C33
